@@ -38,6 +38,33 @@ struct Kind {
     /// how a sampling formatter is called for this step: its configured rate, the unsampled
     /// `Format::format` route of the same formatter, or another rate
     mode: Mode,
+    /// instead of `entry`: an entry whose distribution iterator panics on its third `next()`
+    /// (the panic is caught above the formatter, which is then used again)
+    panics: bool,
+}
+
+/// timestamp, the configured dimension `A`, a metric whose observations are 1, 2, then a panic
+struct PanickingEntry;
+struct PanickingValue;
+struct ExpectedPanic;
+impl metrique_writer::Value for PanickingValue {
+    fn write(&self, w: impl metrique_writer::ValueWriter) {
+        let obs = (0..).map(|i| {
+            if i >= 2 {
+                std::panic::panic_any(ExpectedPanic);
+            }
+            metrique_writer::Observation::Unsigned(i + 1)
+        });
+        w.metric(obs, metrique_writer::Unit::None, [], metrique_writer::MetricFlags::empty());
+    }
+}
+impl metrique_writer::Entry for PanickingEntry {
+    fn write<'a>(&'a self, w: &mut impl metrique_writer::EntryWriter<'a>) {
+        w.timestamp(std::time::UNIX_EPOCH + std::time::Duration::from_secs(1_700_000_000));
+        w.value("A", "val-A");
+        w.value("Before", &7u64);
+        w.value("Panicking", &PanickingValue);
+    }
 }
 
 #[derive(Clone, Copy, PartialEq)]
@@ -81,6 +108,18 @@ fn kinds(cfg: &CfgD, tier: Tier) -> Vec<Kind> {
     edims_missing.ops.retain(|o| !matches!(o, OpD::Value(n, ValD::Str(_)) if n == "E"));
     let mut edims_metric = edims_missing.clone();
     edims_metric.ops.push(OpD::Value(s("E"), m(vec![Obs::U(7)], vec![])));
+    // the same dimension names grouped differently
+    let edims_of = |sets: Vec<Vec<String>>| {
+        let mut e = build_entry(cfg, Frame { ts: TsD::Small, edims: EDimsD::Two, dim_strings_last: true, always_split: false }, vec![(s("M"), m(vec![Obs::U(3)], vec![]))]);
+        for o in &mut e.ops {
+            if let OpD::Config(ConfD::EntryDims(x)) = o {
+                *x = sets.clone();
+            }
+        }
+        e
+    };
+    let edims_grouped = edims_of(vec![vec![s("E"), s("F")]]);
+    let edims_separate = edims_of(vec![vec![s("E")], vec![s("F")]]);
     let mut edims_twice = edims.clone();
     edims_twice.ops.insert(0, OpD::Config(ConfD::EntryDims(vec![vec![s("E")]])));
     let unroutable = EntryD { ops: vec![OpD::Config(ConfD::Unroutable), OpD::Value(s("MetriqueValidationError"), ValD::Str(s("in-band error report")))] };
@@ -94,9 +133,9 @@ fn kinds(cfg: &CfgD, tier: Tier) -> Vec<Kind> {
     let huge_split = valid(vec![(s("H"), m(huge_obs(), vec![(s("k"), s("v"))]))]);
     let err_val = valid(vec![(s("M"), ValD::Error(s("value error")))]);
     let dist = valid(vec![(s("M"), m(vec![Obs::U(7), Obs::F(2.5), Obs::R(9.0, 3)], vec![])), (s("S"), ValD::Str(s("q\"")))]);
-    let k = |name, entry, fail_after| Kind { name, entry, fail_after, compare_bytes: true, mode: Mode::Configured };
-    let kd = |name, entry, fail_after| Kind { name, entry, fail_after, compare_bytes: false, mode: Mode::Configured };
-    let km = |name, entry, mode| Kind { name, entry, fail_after: None, compare_bytes: true, mode };
+    let k = |name, entry, fail_after| Kind { name, entry, fail_after, compare_bytes: true, mode: Mode::Configured, panics: false };
+    let kd = |name, entry, fail_after| Kind { name, entry, fail_after, compare_bytes: false, mode: Mode::Configured, panics: false };
+    let km = |name, entry, mode| Kind { name, entry, fail_after: None, compare_bytes: true, mode, panics: false };
     let mut extra = Vec::new();
     if cfg.mult != Mult::None {
         // one sampling formatter called through both of its routes and at several rates
@@ -121,6 +160,8 @@ fn kinds(cfg: &CfgD, tier: Tier) -> Vec<Kind> {
         k("entry-dimensions", edims.clone(), None),
         k("split-under-entry-dimensions", split_edims, None),
         k("split-under-two-entry-dimension-sets", split_edims2, None),
+        k("entry-dimensions-E-F-in-one-set", edims_grouped, None),
+        k("entry-dimensions-E-and-F-in-two-sets", edims_separate, None),
         k("defect-entry-dimensions-twice", edims_twice, None),
         k("defect-entry-dimension-not-written", edims_missing, None),
         k("defect-metric-under-entry-dimension-name", edims_metric, None),
@@ -139,6 +180,7 @@ fn kinds(cfg: &CfgD, tier: Tier) -> Vec<Kind> {
     if tier == Tier::Thorough {
         v.push(k("huge-distribution-in-split-record", huge_split, None));
     }
+    v.push(Kind { name: "value-panics-in-the-middle-of-its-distribution", entry: scalar.clone(), fail_after: None, compare_bytes: true, mode: Mode::Configured, panics: true });
     v.extend(extra);
     v
 }
@@ -162,6 +204,18 @@ fn c14_configs() -> Vec<CfgD> {
 type Obsv = (String, Vec<Vec<u8>>);
 
 fn step(r: &mut Runner, k: &Kind) -> Obsv {
+    if k.panics {
+        let mut out = Vec::new();
+        let res = std::panic::catch_unwind(std::panic::AssertUnwindSafe(|| r.format_entry(&PanickingEntry, &mut out)));
+        let outcome = match res {
+            Err(p) if p.is::<ExpectedPanic>() => "the value's panic propagated".to_string(),
+            Err(_) => "another panic".to_string(),
+            Ok(o) => format!("{o:?}"),
+        };
+        let mut lines: Vec<Vec<u8>> = out.split_inclusive(|c| *c == b'\n').map(|l| l.to_vec()).collect();
+        lines.sort();
+        return (outcome, lines);
+    }
     fn call(r: &mut Runner, k: &Kind, w: &mut impl io::Write) -> Outcome {
         match k.mode {
             Mode::Configured => r.format(&k.entry, w),
